@@ -278,7 +278,6 @@ Definition deviation_witnesses : list (string * list value) := [
   ("~2R", [VInt 5]);                                                  (* radix ignored *)
   ("~:R", [VInt 100]);                                                (* ordinal of a round number *)
   ("~:R", [VInt 20]);
-  ("~R", [VInt 1000000000000000000000000000000000000000000000000000000000000000001]);   (* beyond the table *)
   ("~@R", [VInt 0]);                                                  (* Roman zero *)
   ("~D", [VStr (tx "abc")]);                                          (* non-integer printed with escapes *)
   ("~10,'*D", [VInt 42]);                                             (* quoted parameter that is a directive character *)
